@@ -45,7 +45,7 @@ package interfaces
 //@ func Engine.BeginTransaction
 //@   havocs self.begins, self.lastBeginRO
 //@   ensures self.begins == old(self.begins) + 1 && self.lastBeginRO == readOnly
-//@   ensures err == nil ==> result0 != nil && fresh(dyn(result0)) && result0.puts == 0 && result0.dels == 0 && result0.commits == 0 && result0.rollbacks == 0 && !result0.finished
+//@   ensures err == nil ==> result0 != nil && fresh(dyn(result0)) && result0.puts == 0 && result0.dels == 0 && result0.commits == 0 && result0.rollbacks == 0 && !result0.finished && result0.fullIters == 0 && result0.rangeIters == 0
 //@   ensures err != nil ==> result0 == nil
 
 // ---- Transaction as seen by the network service
@@ -75,7 +75,13 @@ package interfaces
 //@   ensures self.rollbacks == old(self.rollbacks) + 1 && self.finished
 //@ func Transaction.IsReadOnly
 //@   ensures result == self.ro
+//@ ghost field (Transaction) fullIters int
+//@ ghost field (Transaction) rangeIters int
+//@ ghost field (Transaction) lastStart []byte
+//@ ghost field (Transaction) lastEnd []byte
 //@ func Transaction.NewIterator
-//@   ensures result != nil
+//@   havocs self.fullIters
+//@   ensures result != nil && self.fullIters == old(self.fullIters) + 1
 //@ func Transaction.NewRangeIterator
-//@   ensures result != nil
+//@   havocs self.rangeIters, self.lastStart, self.lastEnd
+//@   ensures result != nil && self.rangeIters == old(self.rangeIters) + 1 && self.lastStart == startKey && self.lastEnd == endKey
